@@ -11,6 +11,7 @@
 //
 //	reset n=<clients> [slow=1]              settle + close the previous clients, open n new ones (slow=1: clients that can be stalled)
 //	stall c=<i> / resume c=<i>              the client stops / resumes reading its connection
+//	fault c=<i> n=<k> partial=<0|1>         the next k writes on the client's connection fail with a timeout net.Error (after half the packet if partial)
 //	req c=<i> to=<svc> r=<id>/<script> ...  one frame with one or more requests to service <svc> (0 gate-1, k chat-k)
 //	go ms=<d>                               let d ms of virtual time pass
 //	close c=<i>                             the client closes its connection
@@ -31,6 +32,7 @@
 //	L<svc>=d<c>.<n><k>,x<thr>.<c>.<n><k>,...   what the service goroutine issued (d) / executed for a worker (x), in order
 //	A<c>=<svc>.<thr>.<n><k>,...   what client c read, in arrival order (k: p push, r response)
 //	open=<c>,<c>,...              (settle) the clients that are still open
+//	closed=<c>,...                the connections the server ended since the previous op
 package c03
 
 import (
@@ -376,6 +378,17 @@ func (w *world) collect() string {
 			parts = append(parts, fmt.Sprintf("A%d=%s", i, strings.Join(items, ",")))
 		}
 	}
+	// connections the server ended (e.g. after a failed write): reported once
+	var dead []string
+	for i, c := range w.clients {
+		if w.open[i] && c.Closed() {
+			w.open[i] = false
+			dead = append(dead, strconv.Itoa(i))
+		}
+	}
+	if len(dead) > 0 {
+		parts = append(parts, "closed="+strings.Join(dead, ","))
+	}
 	if len(parts) == 0 {
 		return "-"
 	}
@@ -394,6 +407,17 @@ func (w *world) exec(op string) string {
 			return "bad-op"
 		}
 		return w.reset(nc, hx.KVInt(ws, "slow") == 1)
+	case "fault":
+		ci := hx.KVInt(ws, "c")
+		if ci >= len(w.clients) || !w.open[ci] {
+			return "bad-op"
+		}
+		g, ok := w.clients[ci].(*gclient)
+		if !ok {
+			return "bad-op"
+		}
+		g.fault(hx.KVInt(ws, "n"), hx.KVInt(ws, "partial") == 1)
+		return "-"
 	case "stall", "resume":
 		ci := hx.KVInt(ws, "c")
 		if ci >= len(w.clients) || !w.open[ci] {
